@@ -416,6 +416,93 @@ func cmdPairs(args []string) {
 			}
 		}
 	}
+	// (h) the same two rules on locations under top-level domains whose delegation changes between the certificate's date and
+	// today (removed since, or delegated since): whatever time base the rule uses, both copies must use the same one
+	if only == "" || only == "planted-aia-tld" {
+		la, lb := byName["w_sub_cert_aia_contains_internal_names"], byName["w_smime_aia_contains_internal_names"]
+		var tpl *corpus.Obj
+		bothRun := func(o *corpus.Obj) bool { // both rules judge the object when it is dated inside both windows
+			fc, err := forge.ParseCert(o.DER)
+			if err != nil {
+				return false
+			}
+			fc.SetNotBefore(time.Date(2024, 3, 1, 0, 0, 0, 0, time.UTC))
+			fc.SetNotAfter(time.Date(2024, 5, 30, 0, 0, 0, 0, time.UTC))
+			cert, ok, _ := corpus.ParseCert(fc.Bytes())
+			if !ok {
+				return false
+			}
+			t := &Target{Kind: "cert", ID: o.ID, DER: fc.Bytes(), Cert: cert}
+			ra, rb := execOne(la, t, cfg).Obs, execOne(lb, t, cfg).Obs
+			return ra >= 3 && ra <= 6 && rb >= 3 && rb <= 6
+		}
+		for _, o := range c.Certs {
+			if la != nil && lb != nil && len(o.Cert.OCSPServer)+len(o.Cert.IssuingCertificateURL) > 0 && bothRun(o) {
+				tpl = o
+				break
+			}
+		}
+		if tpl == nil {
+			for _, o := range c.Certs {
+				fc, err := forge.ParseCert(o.DER)
+				if err != nil || o.Cert.IsCA || fc.FindExt("2.5.29.32") == nil || la == nil || lb == nil {
+					continue
+				}
+				pol := forge.Cons(0x10, forge.Cons(0x10, forge.OID(2, 23, 140, 1, 5, 1, 1)), forge.Cons(0x10, forge.OID(2, 23, 140, 1, 2, 1)))
+				fc.SetExt("2.5.29.32", forge.MakeExt(forge.OID(2, 5, 29, 32), false, pol.Bytes()))
+				fc.SetExt("1.3.6.1.5.5.7.1.1", forge.MakeExt(forge.OID(1, 3, 6, 1, 5, 5, 7, 1, 1), false,
+					forge.Cons(0x10, forge.Cons(0x10, forge.OID(1, 3, 6, 1, 5, 5, 7, 48, 1), forge.GN(forge.GNURI, []byte("http://ocsp.example.com/")))).Bytes()))
+				fc.SetNotBefore(time.Date(2024, 3, 1, 0, 0, 0, 0, time.UTC))
+				fc.SetNotAfter(time.Date(2024, 5, 30, 0, 0, 0, 0, time.UTC))
+				if cert, ok, _ := corpus.ParseCert(fc.Bytes()); ok {
+					if cand := (&corpus.Obj{ID: o.ID, Kind: "cert", DER: fc.Bytes(), Cert: cert}); bothRun(cand) {
+						tpl = cand
+						break
+					}
+				}
+			}
+		}
+		if tpl != nil {
+			base, _ := forge.ParseCert(tpl.DER)
+			smimeFrom := time.Date(2023, 9, 15, 0, 0, 0, 0, time.UTC)
+			today := time.Now().UTC()
+			nt := 0
+			for _, x := range readTLDTable() {
+				dl, e1 := time.Parse("2006-01-02", x.Deleg)
+				var nb time.Time
+				switch {
+				case x.Removal != "":
+					rm, e2 := time.Parse("2006-01-02", x.Removal)
+					if e1 != nil || e2 != nil || !rm.After(smimeFrom.AddDate(0, 0, 2)) || !rm.Before(today) {
+						continue
+					}
+					nb = rm.AddDate(0, 0, -1) // delegated on the day of issuance, removed by now
+					if nb.Before(smimeFrom) {
+						nb = smimeFrom
+					}
+				case e1 == nil && dl.After(smimeFrom.AddDate(0, 0, 2)) && dl.Before(today):
+					nb = dl.AddDate(0, 0, -1) // not yet delegated on the day of issuance, delegated by now
+				default:
+					continue
+				}
+				if nt >= 12 {
+					break
+				}
+				nt++
+				for mi, method := range [][]int{{1, 3, 6, 1, 5, 5, 7, 48, 1}, {1, 3, 6, 1, 5, 5, 7, 48, 2}} {
+					v := base.Clone()
+					probe := forge.Cons(0x10, forge.OID(method...), forge.GN(forge.GNURI, []byte("http://ocsp.example."+x.Key+"/")))
+					v.SetExt("1.3.6.1.5.5.7.1.1", forge.MakeExt(forge.OID(1, 3, 6, 1, 5, 5, 7, 1, 1), false, forge.Cons(0x10, probe).Bytes()))
+					v.SetNotBefore(nb)
+					v.SetNotAfter(nb.AddDate(0, 0, 90))
+					if cert, ok, _ := corpus.ParseCert(v.Bytes()); ok {
+						emit(&Target{Kind: "cert", ID: "planted-aia-tld", DER: v.Bytes(), Cert: cert}, fmt.Sprintf("aia-tld:%s:%d", x.Key, mi))
+						nforged++
+					}
+				}
+			}
+		}
+	}
 	_ = rng
 	n := w.N
 	w.Close()
